@@ -7,11 +7,21 @@ import OpdaProofs.EmpAvg
 import OpdaProofs.EmpQtc
 import OpdaProofs.EmpDrv
 import OpdaProofs.EmpDualExt
+import OpdaProofs.EmpAvgExt
 /-!
 # C04 — empirical tuning curves equal the best-of-n order-statistic definitions
 
 The executable model is `OpdaModel/EmpCurves.lean` (+ `Emp.ppf` for the quantile curve, whose level
 `q^(1/n)` resp. `1-(1-q)^(1/n)` is computed by the harness with the specified formula).
+
+**`v_tuning_curve = average_tuning_curve`**: for finite observations `v_eq_average`, `v_eq_average_minimize` (any `pw`) and, on
+the driver's own terms, `v_op_eq_avg_op_driver`.  For observations that may be `±∞` (values in `Ext`; lemmas in
+`OpdaProofs/EmpAvgExt.lean`) `v_op_eq_avg_op_driver_ext`: the driver sums `weight × value` over `Ext`, skipping exact-zero
+weights, and replies with the finite sum when no infinite observation carries weight, with that infinity when one does, and
+with `nan` when `+∞` and `−∞` both do (`ext_sum_cases`); the `v` reply and the `avg` reply are the same in every case, for
+every non-empty unweighted sample, any bounds, both directions and every `pw` that is non-decreasing on `[0,1]`
+(`v_op_eq_avg_op_driver_ext_pow`: the driver's `x ↦ xⁿ`).  Monotonicity is needed once infinite observations are tied
+(`v_op_ne_avg_op_nonmonotone_pw`): the sign of each V-weight of a tied block decides the reply, not only their sum.
 -/
 namespace Opda.Props.C04
 open Opda.Emp Opda.Wire Opda.Drv.Emp Finset
@@ -302,6 +312,80 @@ theorem v_op_eq_avg_op_driver (pw : ℚ → ℚ) (mn : Bool) (a b : Ext) (ys : L
       = wsum ((bestWeights pw mn (withPrev (cumN (support Ext.negInf Ext.posInf a b
           ((ys.map Ext.fin).map fun y => (y, (1 : ℚ))))))).filter fun p => p.2 ≠ 0) :=
   v_driver_eq_avg_driver pw mn a b ys hne
+
+/-! ### `v` op = `avg` op when observations may be `±∞` -/
+
+/-- **the driver's sum of `weight × value` over extended values, all weights non-negative**: `nan` (`none`) when `+∞` and
+`−∞` both carry weight, that infinity when one does, otherwise `Ext.fin` of the finite sum (`phiSum φ l = Σ φ(value)·weight`,
+`phiPos`/`phiNeg` the indicators of `+∞`/`−∞`, `phiFin` the finite value and `0` at `±∞`). -/
+theorem ext_sum_cases (l : List (Ext × ℚ)) (hn : NonNeg l) :
+    wsum l = if 0 < phiSum phiPos l ∧ 0 < phiSum phiNeg l then none
+      else if 0 < phiSum phiPos l then some .posInf
+      else if 0 < phiSum phiNeg l then some .negInf
+      else some (.fin (phiSum phiFin l)) := wsum_of_nonneg l hn
+
+/-- the list the `avg` op sums (best-of-n weights over the padded support, exact zeros dropped) has non-negative weights, so
+`ext_sum_cases` describes the reply: finite / `±∞` / `nan` according to which infinite atoms carry best-of-n weight. -/
+theorem avg_op_driver_ext_value (pw : ℚ → ℚ) (hmono : ∀ x y, 0 ≤ x → x ≤ y → y ≤ 1 → pw x ≤ pw y) (mn : Bool)
+    (a b : Ext) (ys : List Ext) (hne : ys ≠ []) :
+    let bw := (bestWeights pw mn (withPrev (cumN (support Ext.negInf Ext.posInf a b
+      (ys.map fun y => (y, (1 : ℚ))))))).filter fun p => p.2 ≠ 0
+    NonNeg bw ∧
+    wsum bw = if 0 < phiSum phiPos bw ∧ 0 < phiSum phiNeg bw then none
+      else if 0 < phiSum phiPos bw then some .posInf
+      else if 0 < phiSum phiNeg bw then some .negInf
+      else some (.fin (phiSum phiFin bw)) := avg_driver_ext_value pw hmono mn a b ys hne
+
+/-- **`v` op = `avg` op on the driver's own terms, observations in `Ext` (`±∞` allowed)**: every non-empty unweighted sample
+(ties, any order), any bounds, both `minimize` settings, every `pw` non-decreasing on `[0,1]`: the two replies are equal —
+both `some (Ext.fin _)` with the same finite part, both the same infinity, or both `none` (`nan`). -/
+theorem v_op_eq_avg_op_driver_ext (pw : ℚ → ℚ) (hmono : ∀ x y, 0 ≤ x → x ≤ y → y ≤ 1 → pw x ≤ pw y) (mn : Bool)
+    (a b : Ext) (ys : List Ext) (hne : ys ≠ []) :
+    wsum (((if mn then (Opda.Band.sort ys).reverse else Opda.Band.sort ys).zip (vWeights pw ys.length)).filter
+        fun p => p.2 ≠ 0)
+      = wsum ((bestWeights pw mn (withPrev (cumN (support Ext.negInf Ext.posInf a b
+          (ys.map fun y => (y, (1 : ℚ))))))).filter fun p => p.2 ≠ 0) :=
+  v_driver_eq_avg_driver_ext pw hmono mn a b ys hne
+
+/-- … for the function the driver uses, `x ↦ xⁿ`, every `n : ℕ` -/
+theorem v_op_eq_avg_op_driver_ext_pow (n : ℕ) (mn : Bool) (a b : Ext) (ys : List Ext) (hne : ys ≠ []) :
+    wsum (((if mn then (Opda.Band.sort ys).reverse else Opda.Band.sort ys).zip
+        (vWeights (fun x : ℚ => x ^ n) ys.length)).filter fun p => p.2 ≠ 0)
+      = wsum ((bestWeights (fun x : ℚ => x ^ n) mn (withPrev (cumN (support Ext.negInf Ext.posInf a b
+          (ys.map fun y => (y, (1 : ℚ))))))).filter fun p => p.2 ≠ 0) :=
+  v_driver_eq_avg_driver_ext_pow n mn a b ys hne
+
+/-- the underlying identity, any linearly ordered value type `E`, any functional `φ` of the value, **any** `pw`:
+`Σ_i φ(s[i])·vW_i = Σ_j φ(v_j)·(pw F_j − pw F_{j−1})` (maximise), and the decreasing arrangement against the survival form
+(minimise) -/
+theorem v_eq_average_through_functional {E α : Type} [LinearOrder E] [Field α] [LinearOrder α] [IsStrictOrderedRing α]
+    (φ : E → α) (pw : α → α) (ys s : List E) (hne : ys ≠ []) (hperm : s.Perm ys) (hsorted : s.Pairwise (· ≤ ·)) :
+    phiSum φ (s.zip (vWeights pw ys.length))
+        = phiSum φ (bestWeights pw false (withPrev (cumN (atoms (ys.map fun y => (y, (1 : α)))))))
+      ∧ phiSum φ (s.reverse.zip (vWeights pw ys.length))
+        = phiSum φ (bestWeights pw true (withPrev (cumN (atoms (ys.map fun y => (y, (1 : α))))))) :=
+  ⟨v_eq_average_phi_max φ pw ys s hperm hsorted, v_eq_average_phi_min φ pw ys s hne hperm hsorted⟩
+
+/-- **monotonicity of `pw` cannot be dropped** once infinite observations are tied: for `pw` with `pw(1/2) = 1`, `0` elsewhere,
+the sample `{+∞, +∞}` has V-weights `+1, −1` on `+∞` (reply `nan`) while its single atom carries weight `0` (finite reply) -/
+theorem v_op_ne_avg_op_nonmonotone_pw :
+    let pw : ℚ → ℚ := fun x => if x = 1 / 2 then 1 else 0
+    wsum (((Opda.Band.sort [Ext.posInf, Ext.posInf]).zip (vWeights pw 2)).filter fun p => p.2 ≠ 0) = none
+      ∧ wsum ((bestWeights pw false (withPrev (cumN (support Ext.negInf Ext.posInf Ext.negInf Ext.posInf
+          ([Ext.posInf, Ext.posInf].map fun y => (y, (1 : ℚ))))))).filter fun p => p.2 ≠ 0) = some (.fin 0) :=
+  v_ne_avg_nonmonotone
+
+/-- non-vacuity and the three cases on concrete samples (`n = 2`, maximise, bounds `(−∞, +∞)`): `{1, 3}` ↦ finite `5/2`,
+`{1, +∞}` ↦ `+∞`, `{−∞, 1, +∞}` ↦ `nan` — the `v` reply, equal to the `avg` reply by `v_op_eq_avg_op_driver_ext_pow` -/
+example :
+    wsum (((Opda.Band.sort [Ext.fin 1, Ext.fin 3]).zip (vWeights (fun x : ℚ => x ^ 2) 2)).filter fun p => p.2 ≠ 0)
+        = some (.fin (5 / 2))
+    ∧ wsum (((Opda.Band.sort [Ext.fin 1, Ext.posInf]).zip (vWeights (fun x : ℚ => x ^ 2) 2)).filter fun p => p.2 ≠ 0)
+        = some .posInf
+    ∧ wsum (((Opda.Band.sort [Ext.negInf, Ext.fin 1, Ext.posInf]).zip (vWeights (fun x : ℚ => x ^ 2) 3)).filter
+        fun p => p.2 ≠ 0) = none := by
+  refine ⟨?_, ?_, ?_⟩ <;> decide +kernel
+
 
 end Opda.Props.C04
 
